@@ -172,7 +172,7 @@ func newChainRun(c *Ctx, sc chainScenario) *chainRun {
 	}
 	connNo := -1
 	ns.LinkFor = func(addr string) *Link {
-		l := &Link{BaseLatency: sc.latBase, Jitter: sc.latJitter, Tape: c.Scen, Frag: sc.frag,
+		l := &Link{BaseLatency: sc.latBase, Jitter: sc.latJitter, Tape: c.Scen, Frag: sc.frag, Coalesce: c.Scen.Bool(1, 2),
 			HoleFor: time.Duration(1+c.Scen.Choose(600)) * time.Second}
 		if addr == trustedAddr {
 			connNo++
